@@ -55,7 +55,7 @@ pub fn build(id: &str, tier: Tier, seed: u64, known: &[Known]) -> Option<Prop> {
         p.units.extend(xseq::units(pid, tier));
     }
     // long programs in lock step (real compiler output, generated loops, a machine that has been through the loader)
-    if let Some(pid) = ["C01", "C02", "C03", "C04", "C05", "C06", "C07", "C08"].iter().find(|x| **x == id) {
+    if let Some(pid) = ["C01", "C02", "C03", "C04", "C05", "C06", "C07", "C08", "C20"].iter().find(|x| **x == id) {
         p.units.extend(longprog::units(pid, tier));
     }
     // witnesses of known findings and regression cases of fixed findings run first, in both tiers
